@@ -35,7 +35,7 @@ func poolCases(r *vkit.Report) {
 		actors = 2
 	}
 	rounds := 60
-	r.Cases("pool", r.Scale(4, 40), 1, func(c *vkit.Case) {
+	r.Cases("pool", r.Scale(4, 30), 1, func(c *vkit.Case) {
 		if classRefuted[clPlain].Load() {
 			return
 		}
